@@ -9,6 +9,7 @@ one ghost monitor per clause of the property (`Env.viol`); the theorems say that
 never fires in any reachable state, for every job, cluster, admissible heuristic choice
 (oracle) and schedule.
 -/
+import EkwVerif.Lemmas.CtrlN
 import EkwVerif.Lemmas.CtrlFinal
 
 namespace EkwVerif.Ctrl
@@ -65,6 +66,19 @@ theorem c02_done_means_ran_once (f : Sem) (j : Job) (cl : Cluster) (wf : WF j cl
 theorem c02_one_worker (f : Sem) (j : Job) (cl : Cluster) (wf : WF j cl) (s : Sys) (hr : Reachable f j cl s) :
     ∀ w w' t, s.inFlight w t → s.inFlight w' t → w = w' :=
   (invAll_reachable f j cl wf s hr).h2x.uniq
+
+/-- **Inputs are really published** (non-atomic task bodies, Model/CtrlN.lean). When bodies publish outputs one at a time,
+a task is made computable or dispatched only when every input has actually been published by its producer — never an
+output that a still-running body has computed but not yet handed to its host's store. -/
+theorem c02_inputs_published (f : Sem) (j : Job) (cl : Cluster) (wf : WF j cl) (x : SysN) (hr : ReachableN f j cl x)
+    (t : Task) (ht : t ∈ x.sys.ctl.computable ∨ x.sys.ctl.dispatched t = 1) :
+    ∀ ds, ds ∈ j.inputs t → x.hidden ds = false := by
+  intro ds hds
+  have hb := reachableN_sys f j cl x hr
+  have ha := (invAll_reachable f j cl wf _ hb).h2.ready t ht ds hds
+  cases hh : x.hidden ds with
+  | false => rfl
+  | true => have := (invN_reachable f j cl wf x hr).unannounced ds hh; rw [ha] at this; cases this
 
 /-! non-vacuity: a two-task chain on one worker reaches a state where both were dispatched once -/
 section
